@@ -363,6 +363,17 @@ func (wd *world) genSpec(tp *engine.Tape, kind, ns, name string) config.Spec {
 		if tp.Bool(1, 2, "match") {
 			r.Match = []*networking.HTTPMatchRequest{{Uri: &networking.StringMatch{MatchType: &networking.StringMatch_Prefix{Prefix: "/p" + fmt.Sprint(tp.Choose(3, "pfx"))}}}}
 		}
+		if len(r.Match) > 0 && tp.Bool(1, 3, "richmatch") {
+			// map-typed match fields with several entries: their order in the generated route must not depend on
+			// map iteration
+			ex := func(v string) *networking.StringMatch {
+				return &networking.StringMatch{MatchType: &networking.StringMatch_Exact{Exact: v}}
+			}
+			m := r.Match[0]
+			m.Headers = map[string]*networking.StringMatch{"x-a": ex("1"), "x-b": ex("2"), "x-c": ex("3")}
+			m.WithoutHeaders = map[string]*networking.StringMatch{"x-d": ex("4"), "x-e": ex("5"), "x-f": ex("6")}
+			m.QueryParams = map[string]*networking.StringMatch{"q1": ex("1"), "q2": ex("2"), "q3": ex("3")}
+		}
 		vs.Http = []*networking.HTTPRoute{r}
 		if tp.Bool(1, 4, "tcproute") {
 			vs.Tcp = []*networking.TCPRoute{{Route: []*networking.RouteDestination{{Destination: &networking.Destination{Host: wlHosts[tp.Choose(3, "tcpdest")], Port: &networking.PortSelector{Number: 9090}}}}}}
